@@ -59,7 +59,7 @@ Proof. exact only_add_remove_rewire. Qed.
 Theorem C14_callback_on_link_delivers_current_value :
   forall p x ci s ex e ed v,
     experts s !! x = Some ex -> ex_fire_all ex = false -> zget (ex_children ex) ci = Some e ->
-    edges s !! e = Some ed -> ed_cb ed = true -> node_value (S (ed_child ed)) s (ed_child ed) = Some v ->
+    edges s !! e = Some ed -> ed_cb ed = CbLog -> node_value (S (ed_child ed)) s (ed_child ed) = Some v ->
     crash_at s <> Some (S (inv_count s)) ->
     run_edge_callback p x ci s =
       (Ok tt, s <| inv_count := S (inv_count s) |> <| events := EvEdgeCb p e v :: events s |>
